@@ -30,6 +30,23 @@ func zzEnc(base filesystem.Filespace, secret, salt []byte, hostOnly bool, c ciph
 func zzReadStream(r io.Reader, bufSize int) ([]byte, bool) {
 	var out []byte
 	buf := make([]byte, bufSize)
+	if nd.Bool("read-then-io.Copy") {
+		// one partial Read, the rest through io.Copy (which uses the
+		// stream's WriteTo when it has one)
+		n, err := r.Read(buf)
+		out = append(out, buf[:n]...)
+		if err == io.EOF {
+			return out, true
+		}
+		if err != nil {
+			return out, false
+		}
+		var rest bytes.Buffer
+		if _, err := io.Copy(&rest, r); err != nil {
+			return out, false
+		}
+		return append(out, rest.Bytes()...), true
+	}
 	for i := 0; i < 64; i++ {
 		n, err := r.Read(buf)
 		out = append(out, buf[:n]...)
